@@ -26,6 +26,13 @@ CLAIMED.update({
          "The clone loop is total over schema-bearing fields, writes back only fresh containers filled with recursive clones, and the structure check rejects a shared Schema object. Not observed equality of marshaled output.", "4/C20"),
 })
 
+CLAIMED.update({
+ "C03": ("dominance of the two cache insertions over the descent into references; dominating miss-guards and key identity at the Loader call; must-pass-through of the side-table merge on every path from a foreign root to its use as a key; provenance of successful returns, of the lookup URI and of stored targets",
+         "Bookkeeping shape of reference resolution for every topology: cache-before-recursion under both URIs, loader only on miss, foreign tables merged, no fallback target, base of the enclosing resource, per-occurrence resolution, anchors scoped to their base. Not RFC 3986 itself nor the target of a concrete topology.", "4/C03"),
+ "C06": ("push/pop discipline of the evaluation stack by dominance and defer analysis; write-effect analysis of the closure of Validate (no state survives a call); exclusive-outcome and guard analysis of the lexical/dynamic split; shape of the outermost-first search",
+         "The dynamic scope is a per-call stack pushed once and popped on every exit, nothing else is mutable or shared, resolution records lexical xor dynamic behaviour, and the search is outermost-first through base resources. Not the target selected for a concrete topology.", "4/C06"),
+})
+
 NOT_YET = "static clauses designed in DESIGN.md section 4 but the rule is not built yet in this session"
 
 def main():
